@@ -41,6 +41,26 @@ type env struct {
 	addrsName string
 }
 
+// rvInfoFor gives the credential's rendezvous directives a shape per environment: the device-side check of the
+// to1d must not depend on what the credential says about how to find the owner (a directive list may mix
+// rendezvous-bypass directives with ordinary rendezvous-service directives in either order).
+func rvInfoFor(shape string) [][]protocol.RvInstruction {
+	enc := func(v any) []byte { b, _ := cbor.Marshal(v); return b }
+	rvd := []protocol.RvInstruction{{Variable: protocol.RVDns, Value: enc("rv.verif.example")}, {Variable: protocol.RVDevPort, Value: enc(uint16(8041))}, {Variable: protocol.RVProtocol, Value: enc(uint8(protocol.RVProtHTTP))}}
+	byp := []protocol.RvInstruction{{Variable: protocol.RVBypass}, {Variable: protocol.RVDns, Value: enc("owner.verif.example")}, {Variable: protocol.RVDevPort, Value: enc(uint16(8043))}, {Variable: protocol.RVProtocol, Value: enc(uint8(protocol.RVProtHTTP))}}
+	switch shape {
+	case "dns":
+		return [][]protocol.RvInstruction{rvd}
+	case "ip":
+		return [][]protocol.RvInstruction{byp, rvd}
+	case "both":
+		return [][]protocol.RvInstruction{rvd, byp}
+	case "three":
+		return [][]protocol.RvInstruction{byp}
+	}
+	return [][]protocol.RvInstruction{}
+}
+
 func addrLists() map[string][]protocol.RvTO2Addr {
 	dns, dns2 := "owner.verif.example", "b.example"
 	ip4, ip6 := net.IP{10, 1, 2, 3}, net.ParseIP("2001:db8::7")
@@ -56,6 +76,7 @@ func addrLists() map[string][]protocol.RvTO2Addr {
 func newEnv(k keys.Kind, enc protocol.KeyEncoding, addrsName string) (*env, error) {
 	ctx := context.Background()
 	w := lab.NewWorld(k, enc)
+	w.Mfg.RvInfo = rvInfoFor(addrsName)
 	if _, err := w.Manufacture(ctx, 2); err != nil {
 		return nil, err
 	}
@@ -460,11 +481,11 @@ func main() {
 	if !r.Quick() {
 		kinds = []string{"ec256", "ec384", "rsa2048restr", "rsapkcs3072", "rsapss2048", "rsapss3072"}
 	}
-	r.Rule("per key type: two devices registered through the real TO0 with each of 5 address-list shapes; then one deviation per run against the real TO1Server behind the real handler: every single-node alteration and every byte ^0x01 of HelloRV and ProveToRV, 7 foreign signers through the real TO1 client, another device's key/GUID, HelloRV naming another GUID, replay of a genuine ProveToRV, 6 clock positions around expiry (before HelloRV / between the two messages); and on the return path every (quick: every third) single-node alteration / byte flip of RVRedirect, re-signing by 3 foreign keys and substitution of another device's blob, each followed by the real TO2 with what TO1 returned. Oracles: 33 => reference predicate (token verifies under the registered voucher's device key for the UEID's GUID, nonce issued in this session, not expired); the released and the device-side to1d are byte-identical to what the owner registered and TO2 accepts it; an altered redirect that changes the signed value makes TO2 fail without credential and without sending ProveDevice. Layer R (real SQLite rendezvous store, clock seam in to0.go and sqlite.go): every history of up to 3 (thorough 4) events over {register device 0 with address a/1h, b/2h, c/30m; register device 1 with d/2h, e/20m; clock +45m, +100m, +30m-500ms, +30m+500ms (the clock starts at a fraction of a second, so the last two land just before and just after the exact expiry of a 30-minute registration, inside the same wall-clock second)} through the real TO0, followed by the real TO1 of both devices: TO1 succeeds exactly while the LATEST registration of that GUID is unexpired and releases exactly that registration's blob, signature intact; the same to depth 2 (3) with an AcceptVoucher policy that grants at most 40 minutes: reply and expiry follow the GRANTED time-to-live.")
+	r.Rule("per key type: two devices registered through the real TO0 with each of 5 address-list shapes (the credential's rendezvous directives vary with them: none, rendezvous service only, bypass directive before / after a rendezvous-service directive, bypass only); then one deviation per run against the real TO1Server behind the real handler: every single-node alteration and every byte ^0x01 of HelloRV and ProveToRV, 7 foreign signers through the real TO1 client, another device's key/GUID, HelloRV naming another GUID, replay of a genuine ProveToRV, 6 clock positions around expiry (before HelloRV / between the two messages); and on the return path every (quick: every third) single-node alteration / byte flip of RVRedirect, re-signing by 3 foreign keys and substitution of another device's blob, each followed by the real TO2 with what TO1 returned. Oracles: 33 => reference predicate (token verifies under the registered voucher's device key for the UEID's GUID, nonce issued in this session, not expired); the released and the device-side to1d are byte-identical to what the owner registered and TO2 accepts it; an altered redirect that changes the signed value makes TO2 fail without credential and without sending ProveDevice. Layer R (real SQLite rendezvous store, clock seam in to0.go and sqlite.go): every history of up to 3 (thorough 4) events over {register device 0 with address a/1h, b/2h, c/30m; register device 1 with d/2h, e/20m; clock +45m, +100m, +30m-500ms, +30m+500ms (the clock starts at a fraction of a second, so the last two land just before and just after the exact expiry of a 30-minute registration, inside the same wall-clock second)} through the real TO0, followed by the real TO1 of both devices: TO1 succeeds exactly while the LATEST registration of that GUID is unexpired and releases exactly that registration's blob, signature intact; the same to depth 2 (3) with an AcceptVoucher policy that grants at most 40 minutes: reply and expiry follow the GRANTED time-to-live.")
 	var wg sync.WaitGroup
 	for _, kn := range kinds {
 		k := keys.KindByName(kn)
-		shapes := []string{"dns"}
+		shapes := []string{"dns", "ip"}
 		if !r.Quick() || kn == "ec256" {
 			shapes = []string{"dns", "empty", "ip", "both", "three"}
 		}
